@@ -189,6 +189,15 @@ def universe():
         (RQ, "def caller(t: Tuple[Qint[2], Qint[2]]) -> Qint[4]:\n    u = g(t)\n    return sum(u)\n"),
         (RQ, "def caller(t: Tuple[Qint[2], Qint[2]]) -> Qint[2]:\n    u = g(t)\n    return max(u)\n"),
     ]
+    # callees named like builtins the translator knows: a call is a call to the user's function
+    agent4 += [
+        ("def abs(a: Qint[4]) -> Qint[4]:\n    return a + 1\n", "def caller(x: Qint[4]) -> Qint[4]:\n    return abs(3) + x\n"),
+        ("def abs(a: Qint[2]) -> Qint[2]:\n    return a ^ 1\n", "def caller(x: Qint[2]) -> Qint[2]:\n    return abs(x) + abs(2)\n"),
+        ("def max(a: Tuple[Qint[2], Qint[2]]) -> Qint[2]:\n    return a[0] & a[1]\n", "def caller(x: Qint[2], y: Qint[2]) -> Qint[2]:\n    return max((x, y))\n"),
+        ("def sum(a: Tuple[Qint[2], Qint[2]]) -> Qint[2]:\n    return a[0] ^ a[1] ^ 1\n", "def caller(x: Qint[2], y: Qint[2]) -> Qint[2]:\n    return sum((x, y)) + min(x, y)\n"),
+        ("def any(a: Tuple[bool, bool]) -> bool:\n    return a[0] and a[1]\n", "def caller(x: bool, y: bool, z: bool) -> bool:\n    return any((x, y)) or all([y, z])\n"),
+        ("def min(a: Qint[2], b: Qint[2]) -> Qint[2]:\n    return a + b\n", "def caller(x: Qint[2]) -> Qint[2]:\n    return min(x, 1) + min(2, 3)\n"),
+    ]
     for csrc, caller in agent4:
         for mech in ("defs", "inline", "defs-twice"):
             items.append({"fam": "compose-shapes4", "mech": mech, "callee": csrc, "caller": caller})
